@@ -877,7 +877,7 @@ def check_c12(prop, tier, replay, selftest):
     os.makedirs(WORK, exist_ok=True)
     default_bin = build_harness()
     base = feat_workload(default_bin, "default", tier)
-    combos = ALL_COMBOS if tier == "thorough" else [("none", False, False), ("models", True, True), ("paths", False, True), ("none", True, False)]
+    combos = ALL_COMBOS if tier == "thorough" else [("none", False, False), ("models", True, True), ("paths", False, True), ("none", True, True)]
     combos = [c for c in combos if c != ("paths", True, True)]           # that one IS the default build
     tdir = os.path.join(HARNESS, "target-feat")
     if selftest:
@@ -905,6 +905,18 @@ def check_c12(prop, tier, replay, selftest):
                                   "C12 build %s violates %s/%s on record %s" % (name, t[3], json.dumps(t[4:]), rec.get("id")))
                 elif gl is not None and t[0] == "DRIFT":
                     res.drift.append({"build": name, "record": t[2]})
+        # (1b) the streaming mirror exists only with the frontend feature: its own workload under this build, judged by Trace_Frontend
+        if fe:
+            outf = os.path.join(WORK, "feat_%s_frontend.ndjson" % name)
+            run_harness(binary, ["frontend", "--tier", "feat", "--out", outf])
+            trf = tlc_trace("Trace_Frontend", outf)
+            res.add_trace(trf)
+            for gl, t in trf["tuples"]:
+                if gl is not None and t[0] == "MISMATCH":
+                    rec = json.loads(trf["lines"][gl - 1])
+                    res.violation("%s_frontend_%s_%s" % (name, rec["id"], t[4]),
+                                  {"property": prop, "component": "feature-build-frontend:" + name, "features": combo_features(c, vl, fe), "record": rec, "mismatch": t},
+                                  "C12 build %s violates C19/%s at step %s of run %s (%s)" % (name, t[4], t[5], rec["id"], rec.get("mode")))
         # (2) record-by-record comparison with the default build
         cmp_path = os.path.join(WORK, "featcmp_%s.ndjson" % name)
         with open(cmp_path, "w") as f:
